@@ -596,15 +596,18 @@ impl Run {
             ops: ops.len(),
         };
         // states: distinct (register tuple, aux) pairs offered to at least one op
-        let mut doms: BTreeMap<(u8, Aux), ()> = BTreeMap::new();
+        // (a heavy op sees only the first `heavy_b_limit` values of the second register)
+        let mut doms: BTreeMap<(u8, Aux), usize> = BTreeMap::new();
         for o in ops {
-            doms.insert((o.arity, o.aux), ());
+            let nb = if o.heavy { plan.b.len().min(plan.heavy_b_limit) } else { plan.b.len() };
+            let e = doms.entry((o.arity, o.aux)).or_insert(0);
+            *e = (*e).max(nb);
         }
-        for (ar, ax) in doms.keys() {
+        for ((ar, ax), nb) in doms.iter() {
             let tuples = match ar {
                 1 => plan.a.len() as u64,
-                2 => plan.a.len() as u64 * plan.b.len() as u64,
-                _ => plan.a.len() as u64 * plan.b.len() as u64 * plan.c.len() as u64,
+                2 => plan.a.len() as u64 * *nb as u64,
+                _ => plan.a.len() as u64 * *nb as u64 * plan.c.len() as u64,
             };
             cs.states += tuples * auxv(*ax).len() as u64;
         }
